@@ -44,7 +44,7 @@ theorem touch_setCtxOne (same restart : Bool) (s : St) (k : Nat) : Touch k s (se
       · exact h1
 
 theorem setContext_refines (s : St) (c : Option Nat) (restart : Bool) :
-    abs (setContext s c restart) = { abs s with hasCtx := c.isSome } := by
+    abs (setContext s c restart) = { abs s with hasCtx := isLive c } := by
   unfold setContext
   simp only []
   split
@@ -81,30 +81,62 @@ theorem resetAll_sigma (s : St) (L : List Nat) (nd : L.Nodup) (k' : Nat) :
   rw [this]
   cases hr : s.key k' <;> simp [core]
 
-theorem resetAll_refines (s : St) (l : List (Nat × Nat)) :
-    abs ((keyList s).foldl resetAllStep (s, l)).1 = specStep (abs s) (failedOf s) .resetAll := by
+theorem data_abs' (s : St) (k : Nat) (r : Rec) (hr : s.key k = some r) :
+    ((abs s).st k).data = r.data := by
+  simp only [abs, hr, absKey]
+  cases hdr : r.deferRemove with
+  | none => rfl
+  | some e => rfl
+
+/-- the condition functions see the data of the record = the data in the abstract state -/
+theorem matchK_abs (s : St) (cs : List Cond) (k : Nat) : matchK s cs k = specMatch (abs s) cs k := by
+  simp only [matchK, specMatch, inSet_abs]
+  cases hr : s.key k with
+  | none => simp
+  | some r => simp [data_abs' s k r hr]
+
+theorem resetAll_refines (s : St) (cs : List Cond) (l : List (Nat × Nat)) :
+    abs (((keyList s).filter (matchK s cs)).foldl resetAllStep (s, l)).1 =
+      specStep (abs s) (failedOf s) (.resetAll cs) := by
   rw [foldl_fst resetAllStep (fun s k => (resetKey s k).1) (fun _ _ => rfl)]
-  have hs := resetAll_sigma s (keyList s) (nodup_keyList s)
-  have hf : Frame s ((keyList s).foldl (fun s k => (resetKey s k).1) s) :=
+  have nd : ((keyList s).filter (matchK s cs)).Nodup := (nodup_keyList s).sublist List.filter_sublist
+  have hs := resetAll_sigma s _ nd
+  have hf : Frame s (((keyList s).filter (matchK s cs)).foldl (fun s k => (resetKey s k).1) s) :=
     foldl_frame _ (fun s k => frame_resetKey s k) _ _
   rw [abs_of_sigma s _ hf
-    (fun k => if (s.key k).isSome then some (s.ctors k + 1, none) else none)
-    (fun k => if (s.key k).isSome then s.ctors k + 1 else s.ctors k)]
-  · simp only [specStep, renSt, renCtor, inSet_abs s]
+    (fun k => if (s.key k).isSome && matchK s cs k then some (s.ctors k + 1, none) else core (s.key k))
+    (fun k => if (s.key k).isSome && matchK s cs k then s.ctors k + 1 else s.ctors k)]
+  · simp only [specStep, renSt, renCtor, inSet_abs s, ← matchK_abs]
     congr 1
-    funext k
-    cases hr : s.key k <;> simp [absCore, nctor_abs]
+    · funext k
+      cases hr : s.key k with
+      | none => simp [absCore, core, abs, hr, absKey, matchK]
+      | some r =>
+        cases hm : matchK s cs k
+        · simp [absCore, core, nctor_abs, hm, st_abs, hr, absKey]
+          cases r.deferRemove <;> rfl
+        · simp [absCore, core, nctor_abs, hm, st_abs, hr, absKey]
+    · funext k
+      cases hr : s.key k with
+      | none => simp [nctor_abs, matchK, hr]
+      | some r => cases hm : matchK s cs k <;> simp [nctor_abs, hm]
   · intro k
     have := hs k
-    simp only [mem_keyList] at this
+    simp only [List.mem_filter, mem_keyList] at this
     cases hr : s.key k with
     | none => simp [hr] at this ⊢; exact this.1
-    | some r => simp [hr] at this ⊢; exact this.1
+    | some r =>
+      cases hm : matchK s cs k
+      · simp [hr, hm] at this ⊢; exact this.1
+      · simp [hr, hm] at this ⊢; exact this.1
   · intro k
     have := hs k
-    simp only [mem_keyList] at this
+    simp only [List.mem_filter, mem_keyList] at this
     cases hr : s.key k with
     | none => simp [hr] at this ⊢; exact this.2
-    | some r => simp [hr] at this ⊢; exact this.2
+    | some r =>
+      cases hm : matchK s cs k
+      · simp [hr, hm] at this ⊢; exact this.2
+      · simp [hr, hm] at this ⊢; exact this.2
 
 end UtilModel.Keyed
